@@ -68,6 +68,10 @@ def mutate(rng, s):
         elif L not in multi_guard and rng.random() < 0.4:
             for _ in range(rng.choice([1, 2])):          # a constructor listener attached again
                 ops.insert(rng.randint(1, len(ops)), ("add_listener", L))
+    for prov in ("model", "machine"):
+        # an object that is a provider already, attached as a listener as well: nothing of it is registered twice
+        if prov not in multi_guard and rng.random() < 0.15:
+            ops.insert(rng.randint(1, len(ops)), ("add_listener", prov))
     s.ops = ops
     if s.is_async():
         s.rtc = True
